@@ -27,6 +27,11 @@ func init() {
 		"strconv.ParseFloat":                      intrParseFloat,
 		"strconv.cloneString":                     intrIdentity,
 		"strconv.Quote":                           intrOpaqueString,
+		"strconv.QuoteToASCII":                    intrOpaqueString,
+		"strconv.QuoteToGraphic":                  intrOpaqueString,
+		"strconv.AppendQuote":                     intrOpaqueBytes,
+		"strconv.AppendQuoteToASCII":              intrOpaqueBytes,
+		"strconv.AppendQuoteToGraphic":            intrOpaqueBytes,
 		"fmt.Sprintf":                             intrSprintf,
 		"fmt.Fprintf":                             intrFprintf,
 		"fmt.Errorf":                              intrErrorf,
@@ -160,6 +165,11 @@ func init() {
 		"vhB2U": func(e *Exec, _ *Frame, _ *ssa.Function, args []Value) Value {
 			return e.ctx.Ite(args[0].(*Term), e.ctx.Const(64, 1), e.ctx.Const(64, 0))
 		},
+		"vhEnvWait": func(e *Exec, _ *Frame, _ *ssa.Function, _ []Value) Value { return nil },
+		"vhEnvDone": func(e *Exec, _ *Frame, _ *ssa.Function, args []Value) Value {
+			e.envTrace = append(e.envTrace, int64(e.ConcInt(args[0].(*Term))))
+			return nil
+		},
 		"vhSkipNative": func(e *Exec, _ *Frame, _ *ssa.Function, _ []Value) Value { return nil },
 		"vhThreadID": func(e *Exec, _ *Frame, _ *ssa.Function, _ []Value) Value {
 			return e.i64(int64(e.ss.cur.id))
@@ -189,6 +199,13 @@ func (e *Exec) opaqueStr(why string) StrV {
 
 func intrOpaqueString(e *Exec, _ *Frame, fn *ssa.Function, _ []Value) Value {
 	return e.opaqueStr(fn.String())
+}
+
+// intrOpaqueBytes: a byte slice whose content is not modelled (reading it is "unsupported",
+// which ends the path as inconclusive -- never as a pass).
+func intrOpaqueBytes(e *Exec, _ *Frame, fn *ssa.Function, _ []Value) Value {
+	s := e.opaqueStr(fn.String())
+	return SliceV{b: s.b, off: s.off, n: s.n, cap: s.n}
 }
 
 func intrMakeNoZero(e *Exec, _ *Frame, _ *ssa.Function, args []Value) Value {
@@ -942,6 +959,7 @@ func intrAtomicValueStore(e *Exec, _ *Frame, _ *ssa.Function, args []Value) Valu
 		e.rtPanic("explicit", "sync/atomic: store of inconsistently typed value into Value")
 	}
 	st[0] = IfaceV{t: v.t, v: e.copyVal(v.v)}
+	e.atomicSync(p.cell)
 	return nil
 }
 
@@ -949,6 +967,7 @@ func intrAtomicValueLoad(e *Exec, _ *Frame, _ *ssa.Function, args []Value) Value
 	p := args[0].(PtrV)
 	st := (*p.cell).(StructV)
 	v, _ := st[0].(IfaceV)
+	e.atomicSync(p.cell)
 	return IfaceV{t: v.t, v: e.copyVal(v.v)}
 }
 
